@@ -50,8 +50,8 @@ def _spec1(METHODS, x):
             return mins[0]["idx"] if len(mins) == 1 else "AMB"
         stats = [m for m in METHODS if m["prio"] == p and m["kind"] == "static" and isinstance(x, m["bound"])]
         if stats:
-            best = min(_RANK[m["bound"]] for m in stats)
-            top = [m for m in stats if _RANK[m["bound"]] == best]
+            # the unique most specific static method (no other applicable one on a strictly more specific class); none unique: ambiguity
+            top = [m for m in stats if not any(o["bound"] is not m["bound"] and _sub(o["bound"], m["bound"]) for o in stats)]
             return top[0]["idx"] if len(top) == 1 else "AMB"
     return "NOM"
 
@@ -77,7 +77,11 @@ def one_position_module(methods, corpus, checks, prelude=""):
         if m["kind"] == "depunion":
             # a value-dependent type as a member of a union with a plain class
             L.append(f"def p{i}(x):\n    PRED.append(({b}, x))\n    return {m['pred']}")
-            L.append(f"def m{i}(x: Dependent[{b}, p{i}] | {m['other']}):\n    LOG.append({i})\n    return {i}")
+            if m.get("double"):
+                L.append(f"def p{i}b(x):\n    PRED.append(({b}, x))\n    return True")
+                L.append(f"def m{i}(x: (Dependent[{b}, p{i}] & Dependent[{b}, p{i}b]) | {m['other']}):\n    LOG.append({i})\n    return {i}")
+            else:
+                L.append(f"def m{i}(x: Dependent[{b}, p{i}] | {m['other']}):\n    LOG.append({i})\n    return {i}")
             L.append(f"METHODS.append(dict(idx={i}, kind='dep', bound=({b}, {m['other']}), "
                      f"holds=(lambda x: (isinstance(x, {b}) and ({m['pred']})) or isinstance(x, {m['other']})), prio={m['prio']}))")
         elif m["kind"] == "ann":
@@ -179,7 +183,7 @@ def value_module(name, ann_methods, arg_sig, build_arg, pre, prelude="", extra_s
     got = _outcome(lambda: F(v))
     exp = _expected(v)
     if exp is None:
-        return got not in range({k}) and got != "AMB"
+        return got not in range({k}) and got != "AMB" and not (isinstance(got, str) and got.startswith("EXC"))
     if exp == "AMB*":
         return got == "AMB" or got in [i for i, (T, mean) in enumerate(ANN) if mean(v)]
     return got == exp''')
@@ -199,7 +203,7 @@ def value_module(name, ann_methods, arg_sig, build_arg, pre, prelude="", extra_s
         inst = [i for i, (T, mean) in enumerate(ANN) if isinstance(v, T)]
         if len(inst) == 1 and got != inst[0]:
             bad.append((repr(v), got, inst))
-        if not inst and (got in range(len(ANN)) or got == 'AMB'):
+        if not inst and (got in range(len(ANN)) or got == 'AMB' or (isinstance(got, str) and got.startswith('EXC'))):
             bad.append((repr(v), got, inst))
     return bad
 NATIVE_DISPATCH_DISAGREE = _dispatch_vs_isinstance()  # at import: native, incl. instances of subclasses of the bounds""")
@@ -298,6 +302,55 @@ def entry_guard_module(variant):
     a = (x, (x, s), (x, y))[k % 3]
     r = _outcome(lambda: F(a, y))
     return not BAD and _pred_ok()''')
+    elif variant == "kwonly_only":
+        L.append('''def m0(*, z: Literal[0]):
+    if not (isinstance(z, int) and z == 0):
+        BAD.append(("m0", z))
+    return ("zero", z)''')
+        L.append('''def m1(*, z: int):
+    if not isinstance(z, int):
+        BAD.append(("m1", z))
+    return ("int", z)''')
+        L.append("f.register(m0)\nf.register(m1)")
+        L.append("F = f.dispatch")
+        L.append("for _z in (0, 1, True, 'a'):\n    _outcome(lambda: F(z=_z))")
+        L.append('''def check_entries(z: int) -> bool:
+    """
+    post: _
+    """
+    del BAD[:]
+    r = _outcome(lambda: F(z=z))
+    return not BAD and r in ("NOM", "AMB") or (not BAD and not str(r).startswith("EXC"))''')
+    elif variant == "same_parameters_other_bound":
+        L.append("from typing import Sequence")
+        L.append('''def m0(x: Literal[1]):
+    if not (isinstance(x, int) and x == 1):
+        BAD.append(("m0", x))
+    return ("m0", x)''')
+        L.append('''def m1(x: Literal[True]):
+    if not (isinstance(x, bool) and x is True):
+        BAD.append(("m1", x))
+    return ("m1", x)''')
+        L.append('''def m2(x: list[int]):
+    if not (isinstance(x, list) and (not x or isinstance(x[0], int))):
+        BAD.append(("m2", x))
+    return ("m2", x)''')
+        L.append('''def m3(x: tuple[int, ...]):
+    if not (isinstance(x, tuple) and (not x or isinstance(x[0], int))):
+        BAD.append(("m3", x))
+    return ("m3", x)''')
+        L.append('''def m4(x: object):
+    return ("m4", x)''')
+        L.append("for _m in (m0, m1, m2, m3):\n    f.register(_m)\nf.register(m4, priority=-1)")
+        L.append("F = f.dispatch")
+        L.append("for _x in (0, 1, 2, True, False, [1], ['a'], [], (1,), ('a',), (), 'q', None):\n    _outcome(lambda: F(_x))")
+        L.append('''def check_entries(x: int, b: bool, k: int) -> bool:
+    """
+    post: _
+    """
+    del BAD[:]
+    r = _outcome(lambda: F((x, b, [x], (x,), [b], (b,), [], ())[k % 8]))
+    return not BAD''')
     elif variant == "nested_combinators":
         L.append("from ovld.dependent import Equals, StartsWith, EndsWith")
         L.append("from ovld.types import Union, Intersection")
@@ -332,4 +385,34 @@ def entry_guard_module(variant):
     post: not _
     """
     return True''')
+    return "\n\n".join(L) + "\n"
+
+
+def mixed_group_module(p, prio_dep=0, mirrored=False):
+    """two positions; a STATIC method and a value-dependent method that are unordered (each more specific on one
+    position) share a rank: A(x: Dependent[int, p], y: object) / B(x: object, y: int) (+ C(object, object) fallback).
+    Documented: p(x) holds -> A and B both match and are unordered -> ambiguity; p(x) fails -> as if A were absent -> B."""
+    L = [SPEC_LIB, "f = Ovld()"]
+    L.append(f"def q0(x):\n    PRED.append((int, x))\n    return {p}")
+    if not mirrored:
+        L.append("def m0(x: Dependent[int, q0], y: object):\n    LOG.append(0)\n    return 0")
+        L.append("def m1(x: object, y: int):\n    LOG.append(1)\n    return 1")
+    else:
+        L.append("def m0(x: object, y: Dependent[int, q0]):\n    LOG.append(0)\n    return 0")
+        L.append("def m1(x: int, y: object):\n    LOG.append(1)\n    return 1")
+    L.append("def m2(x: object, y: object):\n    LOG.append(2)\n    return 2")
+    L.append("def m3(x: str, y: str):\n    LOG.append(3)\n    return 3")
+    # both registration orders matter for which member leads the group: the module is generated in two orders
+    L.append("for _m in (m1, m0):\n    f.register(_m)\nf.register(m2, priority=-1)\nf.register(m3)" if prio_dep else
+             "for _m in (m0, m1):\n    f.register(_m)\nf.register(m2, priority=-1)\nf.register(m3)")
+    L.append("F = f.dispatch")
+    L.append("for _a in (0, 1, 11, -3, True, 'a', None):\n    for _b in (0, 1, 11, -3, True, 'a', None):\n        _outcome(lambda: F(_a, _b))")
+    dep_arg = "y" if mirrored else "x"
+    L.append(f'''def _spec(x, y):
+    holds = (lambda x: {p})({dep_arg})
+    return "AMB" if holds else 1''')
+    L.append('def check_ints(x: int, y: int) -> bool:\n    """\n    post: _\n    """\n    return _outcome(lambda: F(x, y)) == _spec(x, y) and _pred_ok()')
+    L.append('def reach_static(x: int, y: int) -> bool:\n    """\n    post: not _\n    """\n    return _outcome(lambda: F(x, y)) == 1')
+    L.append('def reach_amb(x: int, y: int) -> bool:\n    """\n    post: not _\n    """\n    return _outcome(lambda: F(x, y)) == "AMB"')
+    L.append('def check_other(s: str, y: int) -> bool:\n    """\n    pre: len(s) <= 2\n    post: _\n    """\n    return _outcome(lambda: F(s, s)) == 3 and _pred_ok()')
     return "\n\n".join(L) + "\n"
